@@ -3,4 +3,4 @@ package main
 
 import "verif/harness/internal/tygen/encrun"
 
-func main() { encrun.Main("rand:2", false, false, false) }
+func main() { encrun.Main("rand:2", false, false, false, 1) }
